@@ -288,8 +288,17 @@ class SourceFile:
                 # impl [<..>] Type { ... }   /  impl Trait for Type { ... }: index only inherent impls `impl Name {`
                 j = i + 1
                 names = []
-                while not (self.toks[j].kind == 'punct' and self.toks[j].text in ('{', ';')) and self.toks[j].kind != 'eof':
-                    names.append(self.toks[j])
+                gdepth = 0
+                while not (self.toks[j].kind == 'punct' and self.toks[j].text in ('{', ';') and gdepth == 0) and self.toks[j].kind != 'eof':
+                    tk = self.toks[j]
+                    if tk.kind == 'punct' and tk.text == '<':
+                        gdepth += 1
+                    elif tk.kind == 'punct' and tk.text == '>':
+                        gdepth -= 1
+                    elif tk.kind == 'punct' and tk.text == '>>':
+                        gdepth -= 2
+                    elif gdepth == 0:
+                        names.append(tk)          # generic arguments (impl From<u32> for T) are dropped from the key
                     j += 1
                 if self.toks[j].kind == 'punct' and self.toks[j].text == '{':
                     close = self._match(j)
@@ -462,6 +471,12 @@ class Parser:
                 if f.kind == 'id':
                     self.i += 1
                     if self.at('('):
+                        if f.text == 'contains' and e[0] == 'range':
+                            self.i += 1
+                            arg = self.parse_expr()
+                            self.expect(')')
+                            e = ('range_contains', e, arg, t.line)
+                            continue
                         self.fail('method call .%s()' % f.text, f)
                     e = ('field', e, f.text, t.line)
                 elif f.kind == 'int' and f.suffix is None:
@@ -503,6 +518,12 @@ class Parser:
                 self.i += 1
                 return ('tuple', [], t.line)
             e = self.parse_expr()
+            if self.at('..=') or self.at('..'):
+                incl = self.at('..=')
+                self.i += 1
+                hi = self.parse_expr()
+                self.expect(')')
+                return ('range', e, hi, incl, t.line)
             if self.at(','):
                 elems = [e]
                 while self.at(','):
@@ -552,6 +573,10 @@ class Parser:
                 segs.append(self.ident().text)
             if self.at('!'):
                 # macro invocation, but `a != b` is tokenized as '!=' so a bare '!' after a path is a macro
+                if segs in (['panic'], ['unreachable'], ['unimplemented']) and self.at('(', 1):
+                    self.i += 1
+                    self.i = self.sf._match(self.i) + 1
+                    return ('panic', segs[0], t.line)
                 self.fail('macro invocation %s!' % '::'.join(segs), t)
             if self.at('{') and not nostruct and self._looks_like_struct_lit():
                 self.i += 1
@@ -608,8 +633,35 @@ class Parser:
                     pat = ('ppath', segs, pt.line)
             else:
                 self.fail('match pattern outside the subset (literal, path, `_` or identifier expected)')
-            if self.at('|') or self.at('..') or self.at('..=') or self.at('@'):
-                self.fail('or-/range-/@-pattern in match')
+            if self.at('|'):
+                pats = [pat]
+                while self.at('|'):
+                    self.i += 1
+                    pt2 = self.peek()
+                    if pt2.kind == 'int' or (self.at('-') and self.peek(1).kind == 'int'):
+                        neg = False
+                        if self.at('-'):
+                            self.i += 1
+                            neg = True
+                        lt = self.peek()
+                        self.i += 1
+                        lit = ('lit', lt.value, lt.suffix, lt.line, lt.text)
+                        pats.append(('plit', ('un', '-', lit, lt.line) if neg else lit))
+                    elif pt2.kind == 'id':
+                        segs2 = [self.ident().text]
+                        while self.at('::'):
+                            self.i += 1
+                            segs2.append(self.ident().text)
+                        if len(segs2) == 1:
+                            self.fail('identifier pattern inside an or-pattern')
+                        pats.append(('ppath', segs2, pt2.line))
+                    else:
+                        self.fail('or-pattern alternative outside the subset')
+                if any(q[0] not in ('plit', 'ppath') for q in pats):
+                    self.fail('or-pattern with a binding or wildcard alternative')
+                pat = ('por', pats)
+            if self.at('..') or self.at('..=') or self.at('@'):
+                self.fail('range-/@-pattern in match')
             guard = None
             if self.at('if'):
                 self.i += 1
@@ -718,7 +770,32 @@ class Parser:
             return ('return', e, t.line)
         if t.kind == 'id' and t.text in ('fn', 'const', 'static', 'struct', 'enum', 'use', 'type', 'impl', 'trait', 'mod'):
             self.fail('nested item `%s`' % t.text)
-        blocklike = self.at('if') or self.at('{') or (self.at('unsafe') and self.at('{', 1))
+        if self.at('loop'):
+            self.i += 1
+            body = self.parse_block()
+            if self.at(';'):
+                self.i += 1
+            return ('loop', body, t.line)
+        if self.at('while'):
+            self.i += 1
+            if self.at('let'):
+                self.fail('`while let`')
+            cond = self.parse_expr(nostruct=True)
+            body = self.parse_block()
+            if self.at(';'):
+                self.i += 1
+            return ('while', cond, body, t.line)
+        if self.at('break') or self.at('continue'):
+            kw = self.peek().text
+            self.i += 1
+            if self.peek().kind == 'other':
+                self.fail('labelled %s' % kw)
+            if not (self.at(';') or self.at('}')):
+                self.fail('`%s` with a value' % kw)
+            if self.at(';'):
+                self.i += 1
+            return (kw, t.line)
+        blocklike = self.at('if') or self.at('{') or (self.at('unsafe') and self.at('{', 1)) or self.at('match')
         if blocklike:
             e = self.parse_if() if self.at('if') else self.parse_primary(False)
             if self.at(';'):
